@@ -500,6 +500,8 @@ class Engine:
     def unitems(self, t):
         """the mapping m such that t = m.items()"""
         self.uses_unitems = True
+        if z3.is_app(t) and t.decl().name().startswith("call!items!") and t.num_args() == 1:
+            return t.arg(0)  # unitems(m.items()) = m, applied syntactically (the axiom itself stays available)
         return self.func("unitems", self.V, self.V)(t)
 
     def _items_arg(self, src):
@@ -514,7 +516,11 @@ class Engine:
         """sufficient condition for 'a and b denote equal values built from the same classes'
         (structural congruence; extensional for comprehensions)"""
         b = self.norm(b)
-        a = self.norm(a, isinstance(b, (Tm, Ite)) and not _has_fresh(b))
+        # the specification returns the input itself, or a fresh shallow copy of it (elements shared): the
+        # code may copy the elements as well (lenient normalisation of the code side only)
+        shares = (isinstance(b, (Tm, Ite)) and not _has_fresh(b)) or (
+            isinstance(b, Call) and b.key == ("freshcopy",) and len(b.args) == 1 and isinstance(b.args[0], (Tm, Ite)) and not _has_fresh(b.args[0]))
+        a = self.norm(a, shares)
         # asymmetric (a = code, b = specification): where the specification allows the input
         # container itself to be returned (no_copy_collections), returning a fresh shallow copy of
         # it is equal as a value and shares less; the converse (aliasing where the specification
